@@ -97,9 +97,9 @@ def main():
         "setup_cmd": "./vcheck --version",
         "hooks": {"guard": "MAKO_VERIF", "enable": "no hooks: nothing under /repo is executed by the checks; they parse /repo/mako/**/*.py on every run", "baseline_off_cmd": "cd /repo && /venv/bin/python -m pytest -ra -q -p no:cacheprovider --timeout=900 --continue-on-collection-errors", "source_commits": [], "add_only": True},
         "engines": [{"name": "vcheck", "path": "/verif/vcheck", "serves_properties": [c["property_id"] for c in checks],
-                     "kind_free_text": "custom static analyser in stdlib Python: AST facts DB, statement CFG with exceptional edges, reaching definitions/provenance chains, abstract model of the code generator's emitted skeletons with typestate dataflow, regex syntax-tree analysis (re._parser) incl. exponential-ambiguity detection"}],
+                     "kind_free_text": "custom static analyser in stdlib Python: AST facts DB, statement CFG with exceptional edges, reaching definitions/provenance chains, abstract model of the code generator's emitted skeletons with typestate dataflow, regex syntax-tree analysis (re._parser) incl. exponential-ambiguity detection; all rules read a canonical form of the package (normaliser: helper unfolding against an inventory of the pinned tree's functions, explaining variables, canonical control flow, context managers / generators / small classes dissolved, class specialisation) so that behaviour-preserving refactorings do not change verdicts"}],
         "checks": checks,
-        "notes": "All checks are static analyses of /repo's current working tree (never imported/executed). Exit 0 ok / 1 VIOLATION / 2 ANALYSIS-ERROR. known_findings.json lists recorded genuine defects; ./vcheck selftest runs seeded-defect and benign-twin variants on scratch copies.",
+        "notes": "All checks are static analyses of /repo's current working tree (never imported/executed). Exit 0 ok / 1 VIOLATION / 2 ANALYSIS-ERROR. known_findings.json lists recorded genuine defects; ./vcheck selftest runs seeded-defect and benign-twin variants on scratch copies; seeded/ (239 independently written breaking changes, SEEDED.md) and benign/ (independently written behaviour-preserving changes, BENIGN.md) are re-run with tools/check_seed.py and tools/check_benign.py.",
         "not_applicable": na,
     }
     json.dump(man, open(os.path.join(here, "MANIFEST.json"), "w"), indent=1)
